@@ -22,6 +22,8 @@ Definition error : Type := list nat.
 Definition err_nil : error := [].
 Definition err_is_nil (e : error) : bool := match e with [] => true | _ :: _ => false end.
 Definition err_join (a b : error) : error := a ++ b.
+(* an error value that is not the failure of a Write attempt (io.ErrShortWrite and the like, where a function makes one up) *)
+Definition err_other : error := [0%nat; 0%nat].
 
 (* the result (n, err) of the k-th Write attempt, as decided by the oracle [wres]:
    [fst (wres k)] = the count it reports, [snd (wres k)] = it returns a non-nil error *)
